@@ -74,3 +74,24 @@ Theorem absolute_nonfile_HostOK dbg hp hpo hd b input u :
   parse_url dbg hp hpo hd None None input = POk u ->
   parse_url dbg hp hpo hd None (Some b) (utf8_lossy (ser u)) = POk u.
 Proof. intros HOK. exact (absolute_nonfile dbg hp hpo hd (HostOK_RT _ _ _ HOK) b input u). Qed.
+
+(* ---------- non-vacuity (host functions ex_hp / ex_hd of C02_AuthMain.v) ---------- *)
+From Coq Require Import String.
+Open Scope string_scope.
+
+(* u parsed from a non-file input, b any parse result: u's serialization joined to b is u *)
+Definition ex_abs (us bs : string) : bool :=
+  match ex_parse us, ex_parse bs with
+  | POk u, POk b =>
+      nonfile_input (B us)
+      && match parse_url true ex_hp ex_hp ex_hd None (Some b) (utf8_lossy (ser u)) with POk v => url_eqb v u | _ => false end
+  | _, _ => false
+  end.
+
+Lemma abs_nonfile_inhabited :
+  ex_abs "HTTP:\\u@h.x:80\a\..\b?q'#f" "http://other/dir/file?x#y" = true
+  /\ ex_abs "http:h.x" "http://other/dir/file" = true
+  /\ ex_abs "a://u:p@h.x:81/a/../b?q#f" "file:///c:/x" = true
+  /\ ex_abs "a:/..//x" "about:blank" = true
+  /\ ex_abs "mailto:x@y?subject=%41" "ws://h/" = true.
+Proof. vm_compute. repeat split. Qed.
